@@ -1,10 +1,12 @@
-//! unit: u07
+probe = open('/verif/probes/u07_feerate_bump.rs').read()
+def between(a, b):
+    i = probe.index(a); j = probe.index(b, i); return probe[i:j]
+lemma = probe[probe.index('// new_fee >= floor(pf*w/1000)'):probe.rindex('}\nfn main')]
+T = '''//! unit: u07
 //! properties: C07
 //! note: on-chain claim fee bumping: compute_fee_from_spent_amounts / feerate_bump (package.rs) and the fee-estimator floor wrapper (chaininterface.rs)
 //! trusted: assume_specification for core::cmp::max / core::cmp::min / Result::unwrap_or (std definitions); trait FeeEstimator is reduced to get_est_sat_per_1000_weight with an unconstrained result (any estimator); trait Logger empty (R3 removes log statements)
 //! assume: compute_package_feerate: the fee estimator never returns more than u32::MAX/5 = 858_993_459 sat/kW (`feerate_estimate * 5` is computed in u32; observation O4 in DESIGN)
-//! trusted: payload structs of PackageSolvingData (RevokedOutput, ... HolderHTLCOutput) are skeletons keeping the fields the code reads; PackageSolvingData::amount() is external_body with an uninterpreted result; BitcoinOutPoint, AggregationCluster opaque
-//! assume: heights and CLTV expiries <= 2^31-1; total claimable value of a package <= 21e14 sat; compute_package_output is called with input_amounts >= dust_limit_sats for the "never above the inputs" clause (observation O3 in DESIGN)
 //! assume: 100 <= predicted_weight <= 4_000_000; input_amounts <= 21e14 sat; 1 <= previous_feerate <= 2^32-1; dust_limit_sats >= 1 (the caller asserts it)
 use vstd::prelude::*;
 verus! {
@@ -99,21 +101,14 @@ pub open spec fn valid_w(w: u64) -> bool { 100 <= w <= 4_000_000 }
     let bumped_feerate = previous_feerate - (previous_feerate / 4);
 //@end
 
-// new_fee >= floor(pf*w/1000) + floor(253*w/1000) and w >= 100  ==>  floor(new_fee*1000/w) >= pf
-pub proof fn lemma_rate_back(new_fee: int, pf: int, w: int)
-    requires 100 <= w <= 4_000_000, 1 <= pf <= 0xffff_ffff, new_fee >= pf * w / 1000 + 253 * w / 1000, new_fee <= 18_446_744_073_709_551
-    ensures new_fee * 1000 / w >= pf, new_fee * 1000 <= 0xffff_ffff_ffff_ffff
-{
-    assert(pf * w >= 0) by (nonlinear_arith) requires pf >= 0, w >= 0;
-    let x = pf * w;
-    assert(x / 1000 * 1000 >= x - 999);
-    assert(253 * w / 1000 * 1000 >= 253 * w - 999);
-    assert(253 * w - 999 - 999 >= 0);
-    assert(new_fee * 1000 >= pf * w) by (nonlinear_arith)
-        requires new_fee >= x / 1000 + 253 * w / 1000, x == pf * w, x / 1000 * 1000 >= x - 999, 253 * w / 1000 * 1000 >= 253 * w - 999, 253 * w - 1998 >= 0;
-    assert(new_fee * 1000 / w >= pf) by (nonlinear_arith) requires new_fee * 1000 >= pf * w, w > 0;
+''' + lemma + '''
 }
+fn main() {}
+'''
+open('/verif/units/u07.rs', 'w').write(T)
 
+T = open('/verif/units/u07.rs').read()
+tail = '''
 // ---------- PackageTemplate methods ----------
 //@const lightning/src/chain/package.rs LOW_FREQUENCY_BUMP_INTERVAL MIDDLE_FREQUENCY_BUMP_INTERVAL HIGH_FREQUENCY_BUMP_INTERVAL
 //@const lightning/src/ln/channelmanager.rs MIN_CLTV_EXPIRY_DELTA
@@ -261,6 +256,7 @@ impl PackageTemplate {
     return Some((cmp::max(input_amounts.saturating_add(new_fee), dust_limit_sats), feerate)); } } else {
 //@end
 }
-
-}
-fn main() {}
+'''
+T = T.replace('\n}\nfn main() {}', tail + '\n}\nfn main() {}')
+T = T.replace('//! assume: 100 <= predicted_weight', '//! trusted: payload structs of PackageSolvingData (RevokedOutput, ... HolderHTLCOutput) are skeletons keeping the fields the code reads; PackageSolvingData::amount() is external_body with an uninterpreted result; BitcoinOutPoint, AggregationCluster opaque\n//! assume: heights and CLTV expiries <= 2^31-1; total claimable value of a package <= 21e14 sat; compute_package_output is called with input_amounts >= dust_limit_sats for the "never above the inputs" clause (observation O3 in DESIGN)\n//! assume: 100 <= predicted_weight')
+open('/verif/units/u07.rs', 'w').write(T)
